@@ -93,57 +93,78 @@ theorem any_datParams (g : Geo) (n : String) (a : Param → Bool) :
         simp only [List.any_append, List.any_cons, h1, ih b h2]
 
 theorem datFunc_spec (g : Geo) (f f' : Func) (h : datFunc g f = some f') :
-    ∃ out, datParams g f.name f.params = some out ∧ f' = { f with params := out } := by
+    ∃ out, datParams g f.name f.params = some out ∧ f' = { f with params := out } ∧
+      (f.params ≠ [] → out ≠ []) := by
   unfold datFunc at h
   cases h1 : datParams g f.name f.params with
   | none => simp [h1] at h
-  | some out => simp only [h1, Option.some.injEq] at h; exact ⟨out, rfl, h.symm⟩
+  | some out =>
+    simp only [h1] at h
+    split at h
+    · exact absurd h (by simp)
+    next hc =>
+      simp only [Option.some.injEq] at h
+      refine ⟨out, rfl, h.symm, ?_⟩
+      intro hne ho
+      subst ho
+      cases hp : f.params with
+      | nil => exact hne hp
+      | cons _ _ => simp [hp] at hc
 
 /-- One function call: what the expanded call means to the backend is what the written call means
-to the user (the written call has parameters; if the expansion has none it must be read as the
-empty disjunction). -/
+to the user (the written call has parameters, hence so has the expanded one). -/
 theorem holdsF_expand (S : Sem δ) (g : Geo) (aliasing : Bool) (f f' : Func) (hne : f.params ≠ [])
-    (h : datFunc g (preFunc aliasing f) = some f')
-    (hok : (!f'.params.isEmpty || !S.emptyVal f'.name) = true) :
-    holdsF S f' = holdsF (userSem S g aliasing) f := by
-  obtain ⟨out, hout, hf'⟩ := datFunc_spec g _ f' h
+    (h : datFunc g (preFunc aliasing f) = some f') :
+    holdsF S f' = holdsF (userSem S g aliasing) f ∧ f'.params.isEmpty = false := by
+  obtain ⟨out, hout, hf', hone⟩ := datFunc_spec g _ f' h
   subst hf'
-  simp only [preFunc] at hout hok ⊢
+  simp only [preFunc] at hout hone ⊢
+  have houtne : out ≠ [] := hone (by
+    intro hm
+    exact hne (List.map_eq_nil_iff.mp hm))
+  have hoe : out.isEmpty = false := by
+    cases ho : out with
+    | nil => exact absurd ho houtne
+    | cons _ _ => rfl
+  refine ⟨?_, hoe⟩
   have hany := any_datParams g (preName aliasing f.name) (S.atom (preName aliasing f.name)) _ out hout
   rw [List.any_map] at hany
   have hfe : f.params.isEmpty = false := by
     cases hp : f.params with
     | nil => exact absurd hp hne
     | cons _ _ => rfl
-  simp only [holdsF, userSem, hfe, Bool.false_eq_true, if_false]
+  simp only [holdsF, userSem, hfe, hoe, Bool.false_eq_true, if_false]
   have huser : f.params.any (userAtom S g aliasing f.name) = out.any (S.atom (preName aliasing f.name)) := by
     rw [hany]
     congr 1
   rw [huser]
-  cases hoe : out.isEmpty with
-  | false => simp
-  | true =>
-    have : out = [] := List.isEmpty_iff.mp hoe
-    subst this
-    simp only [List.isEmpty_nil, Bool.not_true, Bool.false_or, Bool.not_eq_true'] at hok
-    simp [hok]
 
 /-! ## lists of functions, rules, programs -/
 
 def noEmptyParamsF (fs : List Func) : Prop := ∀ f ∈ fs, f.params ≠ []
 
+/-- every function has a parameter -/
+def paramsOkR (r : Rule) : Bool := r.funcs.all fun f => !f.params.isEmpty
+def paramsOkP (p : Prog) : Bool := p.all paramsOkR
+
+theorem emptyOk_of_paramsOk (S : Sem δ) (p : Prog) (h : paramsOkP p = true) : emptyOk S p = true := by
+  simp only [paramsOkP, paramsOkR, List.all_eq_true] at h
+  simp only [emptyOk, emptyOkR, List.all_eq_true, Bool.or_eq_true]
+  intro r hr f hf
+  exact Or.inl (h r hr f hf)
+
 theorem datFuncs_spec (S : Sem δ) (g : Geo) (aliasing : Bool) :
     ∀ fs fs', noEmptyParamsF fs → datFuncs g (fs.map (preFunc aliasing)) = some fs' →
-      (fs'.all fun f => !f.params.isEmpty || !S.emptyVal f.name) = true →
-      fs'.all (holdsF S) = fs.all (holdsF (userSem S g aliasing)) ∧ fs'.isEmpty = fs.isEmpty := by
+      fs'.all (holdsF S) = fs.all (holdsF (userSem S g aliasing)) ∧ fs'.isEmpty = fs.isEmpty ∧
+        (fs'.all fun f => !f.params.isEmpty) = true := by
   intro fs
   induction fs with
   | nil =>
-    intro fs' _ h _
+    intro fs' _ h
     simp only [List.map_nil, datFuncs, Option.some.injEq] at h
-    subst h; exact ⟨rfl, rfl⟩
+    subst h; exact ⟨rfl, rfl, rfl⟩
   | cons f fs ih =>
-    intro fs' hne h hok
+    intro fs' hne h
     simp only [List.map_cons, datFuncs] at h
     cases h1 : datFunc g (preFunc aliasing f) with
     | none => simp [h1] at h
@@ -153,14 +174,15 @@ theorem datFuncs_spec (S : Sem δ) (g : Geo) (aliasing : Bool) :
       | some fs1 =>
         simp only [h1, h2, Option.some.injEq] at h
         subst h
-        simp only [List.all_cons, Bool.and_eq_true] at hok
-        have hf := holdsF_expand S g aliasing f f1 (hne f (by simp)) h1 hok.1
-        have hrest := ih fs1 (fun f' hf' => hne f' (by simp [hf'])) h2 hok.2
-        exact ⟨by simp only [List.all_cons, hf, hrest.1], rfl⟩
+        have hf := holdsF_expand S g aliasing f f1 (hne f (by simp)) h1
+        have hrest := ih fs1 (fun f' hf' => hne f' (by simp [hf'])) h2
+        exact ⟨by simp only [List.all_cons, hf.1, hrest.1], rfl,
+          by simp only [List.all_cons, hf.2, hrest.2.2, Bool.not_false, Bool.and_self]⟩
 
 theorem datRule_spec (S : Sem δ) (g : Geo) (aliasing : Bool) (r r' : Rule) (hne : noEmptyParamsF r.funcs)
-    (h : datRule g (preRule aliasing r) = some r') (hok : emptyOkR S r' = true) :
-    holdsR S r' = holdsR (userSem S g aliasing) r ∧ r'.out = r.out ∧ r'.funcs.isEmpty = r.funcs.isEmpty := by
+    (h : datRule g (preRule aliasing r) = some r') :
+    holdsR S r' = holdsR (userSem S g aliasing) r ∧ r'.out = r.out ∧ r'.funcs.isEmpty = r.funcs.isEmpty ∧
+      paramsOkR r' = true := by
   unfold datRule at h
   simp only [preRule] at h
   cases h1 : datFuncs g (r.funcs.map (preFunc aliasing)) with
@@ -168,26 +190,26 @@ theorem datRule_spec (S : Sem δ) (g : Geo) (aliasing : Bool) (r r' : Rule) (hne
   | some fs' =>
     simp only [h1, Option.some.injEq] at h
     subst h
-    have := datFuncs_spec S g aliasing r.funcs fs' hne h1 (by simpa [emptyOkR] using hok)
-    exact ⟨this.1, rfl, this.2⟩
+    have := datFuncs_spec S g aliasing r.funcs fs' hne h1
+    exact ⟨this.1, rfl, this.2.1, this.2.2⟩
 
 /-- nonempty-function bookkeeping -/
 def neR (r : Rule) : Bool := !r.funcs.isEmpty
 def neP (p : Prog) : Bool := p.all neR
 
 theorem firstMatchAst_expand (S : Sem δ) (g : Geo) (aliasing : Bool) :
-    ∀ rs E, ParserWF rs → datOpt g (preOpt aliasing rs) = some E → emptyOk S E = true →
+    ∀ rs E, ParserWF rs → datOpt g (preOpt aliasing rs) = some E →
       (∀ fb must, firstMatchAst S E fb must = firstMatchAst (userSem S g aliasing) rs fb must) ∧
-        neP E = true := by
+        neP E = true ∧ paramsOkP E = true := by
   intro rs
   induction rs with
   | nil =>
-    intro E _ h _
+    intro E _ h
     simp only [preOpt, List.map_nil, datOpt, Option.some.injEq] at h
     subst h
-    exact ⟨fun _ _ => rfl, rfl⟩
+    exact ⟨fun _ _ => rfl, rfl, rfl⟩
   | cons r rs ih =>
-    intro E hwf h hok
+    intro E hwf h
     simp only [preOpt, List.map_cons, datOpt] at h
     cases h1 : datRule g (preRule aliasing r) with
     | none => simp [h1] at h
@@ -197,18 +219,19 @@ theorem firstMatchAst_expand (S : Sem δ) (g : Geo) (aliasing : Bool) :
       | some E1 =>
         simp only [h1, h2, Option.some.injEq] at h
         subst h
-        simp only [emptyOk, List.all_cons, Bool.and_eq_true] at hok
         have hr := hwf r (by simp)
-        have hspec := datRule_spec S g aliasing r r1 hr.2 h1 hok.1
-        have hrest := ih E1 (fun r' hr' => hwf r' (by simp [hr'])) h2 hok.2
-        refine ⟨fun fb must => ?_, ?_⟩
+        have hspec := datRule_spec S g aliasing r r1 hr.2 h1
+        have hrest := ih E1 (fun r' hr' => hwf r' (by simp [hr'])) h2
+        refine ⟨fun fb must => ?_, ?_, ?_⟩
         · simp only [firstMatchAst, hspec.1, hspec.2.1, hrest.1]
           rfl
         · have hrne : r.funcs.isEmpty = false := by
             cases hp : r.funcs with
             | nil => exact absurd hp hr.1
             | cons _ _ => rfl
-          simp only [neP, List.all_cons, neR, hspec.2.2, hrne, Bool.not_false, Bool.true_and]
-          exact hrest.2
+          simp only [neP, List.all_cons, neR, hspec.2.2.1, hrne, Bool.not_false, Bool.true_and]
+          exact hrest.2.1
+        · simp only [paramsOkP, List.all_cons, hspec.2.2.2, Bool.true_and]
+          exact hrest.2.2
 
 end DaeVerif.C04
